@@ -171,8 +171,34 @@ def run(ctx):
     for b in streams:
         decs_ = [(blk, c, t) for (blk, c, t) in b.calls() if c.name == "Decoder::decode"]
         inner = [(blk, c, t) for (blk, c, t) in b.calls() if (c.method or "").startswith("poll_next")]
+        # a decode call, or the "nothing new to offer" edge of a flag that guards it, must lie on every path to the transport poll
+        avoid = {db for (db, _, _) in decs_}
+        for sb in b.rpo():
+            t = b.term(sb)
+            if t and t["k"] == "switch":
+                p_ = op_place(t["d"])
+                if p_ is None:
+                    continue
+                is_flag = False
+                for d in b.defs().get(p_[0], []):
+                    if d[0] == "assign" and d[3]["rv"]["k"] == "use":
+                        q = op_place(d[3]["rv"]["op"])
+                        if q and any(e[0] == "field" for e in q[1]) and b.local_ty(p_[0]) == "bool":
+                            is_flag = True
+                if not is_flag:
+                    continue
+                tt = t["otherwise"]
+                ft = [tg for v, tg in t["arms"] if v == 0]
+                if ft and any(b.dominates(tt, db) for (db, _, _) in decs_):
+                    avoid.add(ft[0])
+        # ... or the edge on which the carry-over buffer is known to be empty (`self.buffer.take()` returned None)
+        for (tb, tc, tt_) in b.calls():
+            if tc.name in ("Option::take", "Option::is_none", "Option::as_mut", "Option::as_ref"):
+                for g in gates_of_value(b, tt_["dest"][0]):
+                    if g.kind == "option" and g.level == 0:
+                        avoid.add(g.target_for(0))
         for (ib, ic, it) in inner:
-            ok = any(b.dominates(db, ib) and db != ib for (db, _, _) in decs_)
+            ok = bool(decs_) and ib not in b.reach_from(0, avoid=frozenset(avoid))
             ctx.ob("R4d", b.defp, "leftover-offered-before-transport-poll", loc(it["sp"]), ok,
                    "the carry-over buffer is offered to the decoder before the transport is polled" if ok else
                    "the transport is polled for a new message before the carry-over buffer is offered to the decoder: a second frame that arrived in the same message is only "
